@@ -277,3 +277,93 @@ Definition run_export_cost (shared full : bool) (costs : list (Z * list Q)) (alp
   | Some e => Some (qpair (plain_cost c shared full inb (fixed_layers e)), qpair (sn_cost c shared full (hard_sel nt win) nt))
   | None => None
   end.
+
+(* ================================================================== generalised branch bodies
+   A branch body is an expression over the input of the block: leaf layers applied to sub-expressions and BINARY
+   functional ops (residual `x + body(x)`, add of two paths).  Unary functional ops stay `BApp (Fn c)`.  Bodies are
+   trees: a sub-expression that contains modules is not shared (the generator only shares BIn).  Chain bodies
+   (`list layer`) embed by `chain_body`.  A network is a chain of fixed layers, fixed bodies (what export leaves in
+   place of a block) and choice blocks. *)
+Inductive bexp := BIn | BApp (l : layer) (e : bexp) | BBin (op : Z) (e1 e2 : bexp).
+Inductive gnode := GFixed (l : layer) | GBody (e : bexp) | GChoice (bid : Z) (brs : list bexp).
+Definition gnet := list gnode.
+
+Section GEval.
+  Context {T : Type}.
+  Variable apply : layer -> T -> T.
+  Variable bin : Z -> T -> T -> T.            (* binary functional op (0 = add) *)
+  Variable mix : list Q -> list T -> T.
+
+  Fixpoint eval_body (e : bexp) (x : T) : T :=
+    match e with
+    | BIn => x
+    | BApp l e' => apply l (eval_body e' x)
+    | BBin op a b => bin op (eval_body a x) (eval_body b x)
+    end.
+
+  Definition g_eval_node (theta : Z -> list Q) (n : gnode) (x : T) : T :=
+    match n with
+    | GFixed l => apply l x
+    | GBody e => eval_body e x
+    | GChoice b brs => mix (theta b) (map (fun e => eval_body e x) brs)
+    end.
+
+  Definition g_eval (theta : Z -> list Q) (g : gnet) (x : T) : T :=
+    fold_left (fun v n => g_eval_node theta n v) g x.
+End GEval.
+
+(* export: the combiner is replaced by the body of the winner (position-based, repaired code) *)
+Definition g_export_node (win : Z -> nat) (n : gnode) : option (list gnode) :=
+  match n with
+  | GFixed l => Some [GFixed l]
+  | GBody e => Some [GBody e]
+  | GChoice b brs => option_map (fun e => [GBody e]) (nth_error brs (win b))
+  end.
+Fixpoint g_export (win : Z -> nat) (g : gnet) : option gnet :=
+  match g with
+  | [] => Some []
+  | n :: r => match g_export_node win n, g_export win r with
+              | Some a, Some b => Some (a ++ b)
+              | _, _ => None
+              end
+  end.
+Definition g_is_plain (g : gnet) : bool := forallb (fun n => match n with GChoice _ _ => false | _ => true end) g.
+
+(* the leaf layers of a body in execution (trace) order; a binary op is a functional node Fn (100 + op) *)
+Fixpoint body_layers (e : bexp) : list layer :=
+  match e with
+  | BIn => []
+  | BApp l e' => body_layers e' ++ [l]
+  | BBin op a b => body_layers a ++ body_layers b ++ [Fn (100 + op)]
+  end.
+(* what the name-based bookkeeping of the code sees: per block the leaf layers of every branch, per fixed body its layers *)
+Definition g_flatten_node (n : gnode) : list node :=
+  match n with
+  | GFixed l => [NFixed l]
+  | GBody e => map NFixed (body_layers e)
+  | GChoice b brs => [NChoice b (map body_layers brs)]
+  end.
+Definition g_flatten (g : gnet) : net := flat_map g_flatten_node g.
+
+Definition g_mods (g : gnet) : list Z := net_mods (g_flatten g).
+(* SuperNet._get_single_cost depends on the leaf modules only *)
+Definition g_cost (cost : Z -> nat -> Q) (shared full : bool) (theta : Z -> list Q) (g : gnet) : Q :=
+  sn_cost cost shared full theta (g_flatten g).
+Definition g_plain_cost (cost : Z -> nat -> Q) (shared full : bool) (inb : Z -> bool) (g : gnet) : Q :=
+  plain_cost cost shared full inb (fixed_layers (g_flatten g)).
+
+(* chain bodies *)
+Definition chain_body (b : branch) : bexp := fold_left (fun e l => BApp l e) b BIn.
+Definition embed_node (n : node) : gnode :=
+  match n with NFixed l => GFixed l | NChoice b brs => GChoice b (map chain_body brs) end.
+Definition embed (nt : net) : gnet := map embed_node nt.
+
+(* correspondence helper: winners, hard coefficients, exported network (structured), module set *)
+Definition run_gexport (alphas : list (Z * list Q)) (g : gnet)
+  : list (Z * nat) * list (Z * list (Z * Z)) * option gnet * option (list Z) :=
+  let win := fun b => best_layer_index (lookup [] alphas b) in
+  let e := g_export win g in
+  (map (fun p => (fst p, win (fst p))) alphas,
+   map (fun p => (fst p, map qpair (hard_theta (snd p)))) alphas,
+   e,
+   option_map (fun x => zuniq (g_mods x)) e).
